@@ -1283,21 +1283,44 @@ func ruleLzfControlByte(w *core.World, r *core.Report) {
 	if f == nil {
 		return
 	}
-	in := ssa.Value(f.Params[0])
+	isByteSlice := func(t types.Type) bool {
+		sl, ok := t.Underlying().(*types.Slice)
+		if !ok {
+			return false
+		}
+		b, ok := sl.Elem().Underlying().(*types.Basic)
+		return ok && b.Kind() == types.Uint8
+	}
 	isCtrl := func(v ssa.Value) bool {
-		// a byte of the input: in[i]
+		// a byte of the (compressed) input: an element of a byte slice
 		switch x := v.(type) {
 		case *ssa.UnOp:
-			if ia, ok := x.X.(*ssa.IndexAddr); ok && x.Op == token.MUL && ia.X == in {
+			if ia, ok := x.X.(*ssa.IndexAddr); ok && x.Op == token.MUL && isByteSlice(ia.X.Type()) {
 				return true
 			}
 		case *ssa.Index:
-			return x.X == in
+			return isByteSlice(x.X.Type())
 		}
 		return false
 	}
+	// the control byte may reach the expressions as a parameter of a helper: what the one caller hands in
+	paramArg := map[ssa.Value]ssa.Value{}
+	for _, g := range reachableFuncs(f) {
+		if g == f || !(core.Transparent != nil && core.Transparent(g)) {
+			continue
+		}
+		for _, par := range g.Params {
+			if vs := argValues(par, f); len(vs) == 1 && vs[0] != ssa.Value(par) {
+				paramArg[par] = vs[0]
+			}
+		}
+	}
 	newEnv := func() *bvEnv {
-		return &bvEnv{sub: map[ssa.Value]ssa.Value{}, leaf: func(v ssa.Value) (int, int, bool) {
+		sub := map[ssa.Value]ssa.Value{}
+		for k, v := range paramArg {
+			sub[k] = v
+		}
+		return &bvEnv{sub: sub, leaf: func(v ssa.Value) (int, int, bool) {
 			if isCtrl(v) {
 				return 0, 8, true
 			}
